@@ -177,6 +177,7 @@ pub struct Model<'c> {
     pub stat_layer_active_on_event: bool,
     pub stat_buffered_at_decision: usize,
     pub stat_os_other_key: bool,
+    pub stat_max_held_layers: usize,
     /// lazy tap-dance resolution removes *every* queued press of the dance
     /// key (the tree's behaviour) instead of only the counted ones.
     pub td_evict_all_presses: bool,
@@ -221,6 +222,7 @@ impl<'c> Model<'c> {
             stat_layer_active_on_event: false,
             stat_buffered_at_decision: 0,
             stat_os_other_key: false,
+            stat_max_held_layers: 0,
             td_evict_all_presses: false,
             legacy_skips_base: false,
         }
@@ -528,6 +530,7 @@ impl<'c> Model<'c> {
     }
 
     fn dequeue(&mut self, q: Q) {
+        self.stat_max_held_layers = self.stat_max_held_layers.max(self.held_layers().len());
         if !self.held_layers().is_empty() || self.base != 0 {
             self.stat_layer_active_on_event = true;
         }
